@@ -146,6 +146,22 @@ theorem host_port_rule (a0 a1raw : Str) (hostF portF : Option Str) (e : Entry)
 theorem no_host_field : gmHost none = none ∧ gmHost (some []) = none ∧ gmPort none = some none ∧
     gmPort (some []) = some none := by decide
 
+/-- **The file system is consulted only for absolute, filter-clean authored selectors.**  For a
+    selector without a leading slash (`URL:…`; `root + selector` would name a sibling of the
+    document root) or one the security filter rejects, the entry is what the author wrote,
+    whatever the file-system oracle `pop` would answer — for every oracle. -/
+theorem populate_ignores_fs_unless_absolute_secure (pop pop' : Str → Option PopInfo) (e : Entry)
+    (h : e.selector.head? ≠ some 47 ∨ secureB fb e.selector = false) :
+    gmPopulate fb ea dm pop e = e ∧ gmPopulate fb ea dm pop e = gmPopulate fb ea dm pop' e := by
+  have key : ∀ p : Str → Option PopInfo, gmPopulate fb ea dm p e = e := by
+    intro p
+    unfold gmPopulate
+    rcases h with h | h
+    · have : (e.selector.head? == some 47) = false := by simpa using h
+      simp [this]
+    · simp [h]
+  exact ⟨key pop, (key pop).trans (key pop').symm⟩
+
 /-- population from the file system never changes what the gophermap author wrote:
     selector, type, host and port are kept (and the description, unless it was empty) -/
 theorem populate_keeps_authored (e : Entry) :
